@@ -189,6 +189,25 @@ Example ex_refused_run :
           Out (s2l "e0") (PStr (s2l "4/admin,{""message"":""authentication failed""}"))].
 Proof. vm_compute. repeat split; reflexivity. Qed.
 
+(* every hypothesis of refused_connect_no_membership holds of that server and request *)
+Example ex_refused_hypotheses :
+  has_actions (ex_srv_cfg ex_refusal) = false /\
+  (forall args, get_event_handler (ex_srv_cfg ex_refusal) ev_connect ex_adm args = Some (1, args)) /\
+  served (ex_srv_cfg ex_refusal) ex_adm = true /\
+  WF (mg ex_srv) /\ fresh_sid (mg ex_srv) (sid_name (fresh ex_srv)) /\
+  eio_from_sid (mg (fst (fst (handle_connect (ex_srv_cfg ex_refusal) (s2l "e0") (Some ex_adm) (PDict []) ex_srv))))
+               (sid_name (fresh ex_srv)) ex_adm = None.
+Proof.
+  split; [reflexivity|]. split; [intro args; reflexivity|]. split; [reflexivity|].
+  split; [apply WF_init|]. split; [split; [discriminate|reflexivity]|].
+  apply (refused_connect_no_membership (ex_srv_cfg ex_refusal) 1 [PStr (s2l "authentication failed")] eq_refl ex_adm
+           (fun args => eq_refl) eq_refl ex_srv (s2l "e0") (Some ex_adm) (PDict []) (PDict [])
+           eq_refl eq_refl eq_refl).
+  - discriminate.
+  - apply WF_init.
+  - split; [discriminate|reflexivity].
+Qed.
+
 (* FINDING (notes/C18.md): when the connect handler ends with any OTHER exception (which is what
    admin_connect does when the configured predicate raises, auth_predicate_exception_not_refused),
    the membership created by manager.connect stays, and no answer is sent *)
